@@ -130,7 +130,11 @@ pub fn decrypt_private_key(encrypted_data: &str, password: &str) -> Result<Strin
         })?;
 
     // Create secret key from decrypted byte
-    Ok(String::from_utf8(decrypted_data.to_vec()).expect("not able to convert private key"))
+    String::from_utf8(decrypted_data.to_vec()).map_err(|_| {
+        Error::FailedToDecryptKey(String::from(
+            "The decrypted key is not valid text, the encrypted key is damaged",
+        ))
+    })
 }
 
 #[cfg(test)]
